@@ -44,7 +44,8 @@ PARALLEL = 8
 LADDER = [10, 100, 1000, 10_000, 100_000, 1_000_000]
 
 RULE = (
-    "one case = (shape, depth, build profile) run through the real naija binary with RLIMIT_STACK = 8 MiB; "
+    "one case = (shape, depth, build profile) run through the real naija binary with RLIMIT_STACK = 8 MiB; the text is "
+    "passed as a file argument, and for the shapes named <shape>@stdin / <shape>@eval on standard input / as the --eval argument; "
     "endings: ok (exit 0), guard (exit 1 with the runtime 'Stack overflow' diagnostic), diag (exit 1 with another "
     "diagnostic), crash (death by signal with a native stack overflow / SIGSEGV / SIGBUS), resource (allocation "
     "failure abort, SIGKILL), watchdog, panic. Only crash refutes. Non-trivial = the case did not end normally "
@@ -78,14 +79,18 @@ SHAPES = {}
 
 def shape(sid, kind, max_depth=1_000_000, quick=True):
     def deco(fn):
-        SHAPES[sid] = {"id": sid, "kind": kind, "gen": fn, "max": max_depth, "quick": quick}
+        SHAPES[sid] = {"id": sid, "kind": kind, "gen": fn, "max": max_depth, "quick": quick, "extra": (), "delivery": "file"}
         return fn
     return deco
 
 
-def add_shape(sid, kind, fn, max_depth=1_000_000, quick=True, never_ok=False):
-    """never_ok: the shape recurses until a guard fires at every depth, so depth 10 is not expected to complete."""
-    SHAPES[sid] = {"id": sid, "kind": kind, "gen": fn, "max": max_depth, "quick": quick, "never_ok": never_ok}
+def add_shape(sid, kind, fn, max_depth=1_000_000, quick=True, never_ok=False, extra=(), delivery="file"):
+    """never_ok: the shape recurses until a guard fires at every depth, so depth 10 is not expected to complete.
+    extra: depths run in addition to the ladder. delivery: how the text reaches the interpreter (file argument,
+    `--eval` argument, or standard input with `-`): the three entry points leave different frames on the stack
+    above the runtime's stack anchor."""
+    SHAPES[sid] = {"id": sid, "kind": kind, "gen": fn, "max": max_depth, "quick": quick, "never_ok": never_ok,
+                   "extra": tuple(extra), "delivery": delivery}
 
 
 # --- recursion shapes (source size constant; d = requested recursion depth) ------------------
@@ -344,9 +349,23 @@ def _build_data(d):
 
 add_shape("mix-empty-blocks-under-recursion", "mix",
           _under_recursion(lambda d: "do g() start\n" + "start\n" * d + "end\n" * d + "end\n", "g()"), never_ok=True)
-add_shape("mix-data-copy-under-recursion", "mix", _under_recursion(_build_data, "make b get a"), max_depth=10_000, quick=False, never_ok=True)
-add_shape("mix-data-print-under-recursion", "mix", _under_recursion(_build_data, "shout(a)"), max_depth=10_000, quick=False, never_ok=True)
-add_shape("mix-data-to_string-under-recursion", "mix", _under_recursion(_build_data, "make s get to_string(a)"), max_depth=10_000, quick=False, never_ok=True)
+# the data walkers (display, copy, promotion) recurse without a probe and live on the headroom between the
+# budget and the 8 MiB stack: the deepest data the arena can hold (a few thousand levels) is the worst case,
+# so those depths are run on purpose rather than left to where a bisection happens to land
+DATA_UNDER_REC_EXTRA = (2000, 2400, 2800, 3000, 3100, 3200, 3300, 3400, 3500, 3600)
+add_shape("mix-data-copy-under-recursion", "mix", _under_recursion(_build_data, "make b get a"), max_depth=10_000, quick=False, never_ok=True,
+          extra=DATA_UNDER_REC_EXTRA)
+add_shape("mix-data-print-under-recursion", "mix", _under_recursion(_build_data, "shout(a)"), max_depth=10_000, quick=True, never_ok=True,
+          extra=DATA_UNDER_REC_EXTRA)
+add_shape("mix-data-to_string-under-recursion", "mix", _under_recursion(_build_data, "make s get to_string(a)"), max_depth=10_000, quick=False, never_ok=True,
+          extra=DATA_UNDER_REC_EXTRA)
+
+# the same recursion routes entered through the other two entry points of the command-line interpreter
+for _sid, _quick in (("rec-direct", True), ("rec-direct-stmt", False), ("rec-mutual2", False), ("rec-locals32", True),
+                     ("rec-builtin-to_string", False), ("rec-nested-stmts", False), ("rec-params8", False)):
+    for _dl in ("stdin", "eval"):
+        _b = SHAPES[_sid]
+        add_shape(f"{_sid}@{_dl}", "rec", _b["gen"], max_depth=_b["max"], quick=_quick, delivery=_dl)
 
 
 # --- compositions (thorough): a recursion route whose recursive call sits inside k levels of another shape ----
@@ -478,7 +497,7 @@ def _panic_line(text):
     return ""
 
 
-def run_source(binary, src, workdir, tag=None):
+def run_source(binary, src, workdir, tag=None, delivery="file"):
     with _counter_lock:
         _counter[0] += 1
         n = _counter[0]
@@ -489,8 +508,14 @@ def run_source(binary, src, workdir, tag=None):
     err_path = path + ".err"
     t0 = time.time()
     timed_out = False
-    with open(out_path, "wb") as fo, open(err_path, "wb") as fe:
-        p = subprocess.Popen(NO_ASLR + [binary, path], stdin=subprocess.DEVNULL, stdout=fo, stderr=fe, env=CHILD_ENV)
+    with open(out_path, "wb") as fo, open(err_path, "wb") as fe, open(path, "rb") as fi:
+        if delivery == "stdin":
+            argv, stdin = [binary, "-"], fi
+        elif delivery == "eval":
+            argv, stdin = [binary, "--eval", src], subprocess.DEVNULL
+        else:
+            argv, stdin = [binary, path], subprocess.DEVNULL
+        p = subprocess.Popen(NO_ASLR + argv, stdin=stdin, stdout=fo, stderr=fe, env=CHILD_ENV)
         try:
             rc = p.wait(timeout=WATCHDOG)
         except subprocess.TimeoutExpired:
@@ -542,7 +567,7 @@ class Pair:
         if len(src) > MAX_SOURCE:
             self.skipped.append(d)
             return None
-        r = run_source(self.binary, src, self.workdir)
+        r = run_source(self.binary, src, self.workdir, delivery=self.sh.get("delivery", "file"))
         r["depth"] = d
         r["source_bytes"] = len(src)
         self.runs[d] = r
@@ -572,6 +597,9 @@ class Pair:
                 break
             if r["ending"] == "watchdog":
                 break       # deeper inputs only cost more
+        for d in self.sh.get("extra", ()):
+            if d <= self.sh["max"]:
+                self.run_depth(d)
         # transition "no crash -> crash" first, from ladder points only, so that the smallest crashing depth
         # (and the phase decided there) is the same in both tiers
         depths = sorted(self.runs)
@@ -592,6 +620,8 @@ class Pair:
                 lo_c = [d for d in depths if d < hi]
                 if lo_c:
                     self.bisect(lo_c[-1], hi, lambda r: r["ending"] != base, self.steps_ok)
+        if self.phase is None and any(r["ending"] == "crash" for r in self.runs.values()):
+            self.decide_phase()     # a crash first met while narrowing the second transition
 
     def decide_phase(self):
         c = min(d for d, r in self.runs.items() if r["ending"] == "crash")
@@ -599,12 +629,13 @@ class Pair:
         # probe 2 % deeper to be clear of the jitter
         probe = c if NO_ASLR else c + max(10, c // 50)
         src = self.sh["gen"](probe)
-        rp = run_source(self.binary, src + PARSE_PROBE_SUFFIX, self.workdir)
+        dl = self.sh.get("delivery", "file")
+        rp = run_source(self.binary, src + PARSE_PROBE_SUFFIX, self.workdir, delivery=dl)
         info = {"at_depth": probe, "with_syntax_error_appended": rp["ending"]}
         if rp["ending"] == "crash":
             self.phase_detail = "parse"
         else:
-            rn = run_source(self.binary, NORUN_PREFIX + src, self.workdir)
+            rn = run_source(self.binary, NORUN_PREFIX + src, self.workdir, delivery=dl)
             info["behind_failing_first_statement"] = rn["ending"]
             self.phase_detail = "check" if rn["ending"] == "crash" else "run"
         self.phase = "run" if self.phase_detail == "run" else "front-end"
@@ -770,7 +801,7 @@ def run(tier, seed):
                     "detail": {"shape": sid, "depth": d, "profile": pair.profile, "phase": pair.phase, "phase_detail": pair.phase_detail, "death": r["note"],
                                "phase_probe": pair.phase_probe, "source_bytes": r["source_bytes"]},
                     "replay": {"module": "vlib.p_c08", "shape": sid, "depth": d, "profile": pair.profile,
-                               "how": f"python3 -m vlib.p_c08 {sid} {d} > /tmp/x.ns; ulimit -s 8192; naija /tmp/x.ns"},
+                               "how": f"python3 -m vlib.p_c08 {sid} {d} > /tmp/x.ns; ulimit -s 8192; " + {"stdin": "naija - < /tmp/x.ns", "eval": "naija --eval \"$(cat /tmp/x.ns)\""}.get(pair.sh.get("delivery", "file"), "naija /tmp/x.ns")},
                 })
             elif r["ending"] in ("watchdog", "resource", "panic"):
                 res.inconclusive.append({"idx": idx, "why": r["ending"] + (": " + r["note"] if r["note"] else ""),
